@@ -222,7 +222,7 @@ pub fn cases(tier: Tier) -> Vec<GCase> {
 
 pub fn main(tier: Tier, replay: Option<serde_json::Value>) -> i32 {
     let mut run = Run::new("C10", tier, "model_checking");
-    run.rule = "cases = (AND|XOR, pair count, input pair); honest assignment + every bound-1 deviation of the gadget's allocations + the alias adversary per operand (all accumulators, products and outputs recomputed for the integer x + r together with the matching high part) re-run through the real generator and decided by M1; predicate: always satisfiable, every satisfying assignment returns AND/XOR of the low 2p bits of the canonical inputs".into();
+    run.rule = "cases = (AND|XOR, pair count, input pair); honest assignment + every bound-1 deviation of the gadget's allocations + the alias adversary per operand (all accumulators, products and outputs recomputed for the integer x + r together with the matching high part) re-run through the real generator and decided by M1; predicate: always satisfiable, every satisfying assignment returns AND/XOR of the low 2p bits of the canonical inputs; also forged product wires, op(x, x) with a foreign right operand, constant witnesses ZERO / ONE as operands, operands range-checked beforehand, a second application to the same witnesses".into();
     let mut cs = cases(tier);
     if let Ok(f) = std::env::var("VERIF_ONLY") {
         cs.retain(|c| c.g.name.contains(&f));
